@@ -594,6 +594,10 @@ def r08_17(ctx: Ctx, rule: str = "R08.17") -> None:
 
 
 def run(ctx: Ctx) -> None:
+    from . import c15 as _c15s
+    _c15s.r15_13(ctx)  # the header a failed session falls back to is a deep copy of the header that was found
+    from . import c04 as _c04u
+    _c04u.r04_21(ctx, rule="R08.20")  # an append keeps the folder CRCs an archive came with
     r08_17(ctx)
     from . import c15
     c15.r15_10(ctx, rule="R08.16")  # an append session that fails in its first or last step leaves the archive it found
